@@ -64,6 +64,62 @@ class ConcH:
     def angle(self, wname):
         return 2 * math.atan(float(self.env[wname]))
 
+    def random_stub(self, mode):
+        """Replace the random sources behind prysm's numpy shim by deterministic stubs: 'mean' -> noise-free values,
+        'free' -> the values chosen by the solver (env pois_k / norm_k / uni_k)."""
+        H = self
+        mo = importlib.import_module('prysm.mathops')
+
+        class _R:
+            def __init__(self):
+                self.c = {'pois': 0, 'norm': 0, 'uni': 0}
+
+            def _next(self, kind):
+                i = self.c[kind]
+                self.c[kind] += 1
+                return float(H.env['%s_%d' % (kind, i)])
+
+            def poisson(self, lam=1.0, size=None):
+                shape = np.shape(lam) if size is None else (size if isinstance(size, tuple) else (size,))
+                out = np.array(np.broadcast_to(np.asarray(lam, dtype=float), shape), dtype=float)
+                if mode != 'mean':
+                    for idx in np.ndindex(*shape):
+                        out[idx] = round(self._next('pois'))
+                return out
+
+            def normal(self, loc=0.0, scale=1.0, size=None):
+                shape = np.shape(loc) if size is None else (size if isinstance(size, tuple) else (size,))
+                out = np.array(np.broadcast_to(np.asarray(loc, dtype=float), shape), dtype=float)
+                if mode != 'mean':
+                    for idx in np.ndindex(*shape):
+                        out[idx] += self._next('norm')
+                return out
+
+            def rand(self, *shape):
+                out = np.empty(shape)
+                for idx in np.ndindex(*shape):
+                    out[idx] = self._next('uni')
+                return out
+
+            def uniform(self, low=0.0, high=1.0, size=None):
+                shape = () if size is None else (size if isinstance(size, tuple) else (size,))
+                out = np.empty(shape)
+                for idx in np.ndindex(*shape):
+                    out[idx] = low + (high - low) * self._next('uni')
+                return out if shape != () else float(out)
+
+            def default_rng(self, *a, **k):
+                return self
+
+        class _Proxy:
+            def __init__(self, real):
+                self._real = real
+                self.random = _R()
+
+            def __getattr__(self, k):
+                return getattr(self._real, k)
+        mo.np._srcmodule = _Proxy(mo._np)
+
     def frac(self, a, b=1):
         return a / b
 
@@ -190,7 +246,7 @@ class ConcH:
         tol = RTOL * max(abs(a), abs(b), 1e-6)
         ok = a <= b + tol
         if self.cfg.get('__twin__'):
-            ok = not (a <= b - tol)
+            ok = a > b + tol     # the twin asserts the negation (a > b)
         self._rec(label, 'le', ok, a, b, note)
 
     def shape_is(self, label, arr, shape):
@@ -267,6 +323,8 @@ def main():
             ft.mdft.clear()
             ft.czt.clear()
             importlib.import_module('prysm.conf').config.precision = 64
+            mo = importlib.import_module('prysm.mathops')
+            mo.np._srcmodule = mo._np
         except Exception:   # noqa
             pass
         out.append(run_job(job))
